@@ -76,6 +76,9 @@ Result(w, a) ==
 \*   out for "stitch" / "slice": [kind, rows, cols];  for "unslice": [kind, keys, series, again] with again =
 \*   what df_slice(recovered series, ub = bounds, n = fn) returned
 \* ---------------------------------------------------------------------------------------------
+WorldOK(w) == /\ Len(w.ids) >= 1 /\ \A i \in 1..Len(w.ids) : w.ids[i] \in 1..Len(w.heap)
+              /\ \A h \in 1..Len(w.heap) : WellFormed(w.heap[h]) /\ NCols(w.heap[h]) = 1
+              /\ Len(w.bl) = Len(w.ids) /\ Monotone(w.bl)
 WorldDiff(w1, w2) ==           \* which part of the caller's world is not what it should be ("" = none)
     IF w1.ids # w2.ids THEN "list" ELSE IF w1.heap # w2.heap THEN "series" ELSE IF w1.bl # w2.bl THEN "bounds"
     ELSE IF w1.fn # w2.fn \/ w1.fr # w2.fr THEN "frame" ELSE ""
@@ -86,7 +89,7 @@ StepVerdict(w, a, x) ==
         \* a call's result variable is judged on its own (fr after a stitch), the rest of the world must be as before
         rest == IF a.op = "stitch" THEN WorldDiff([want EXCEPT !.fr = NoFrame, !.fn = 0], [x.w EXCEPT !.fr = NoFrame, !.fn = 0])
                 ELSE WorldDiff(want, x.w)
-    IN  IF ~StepEnabled(w, a) THEN "malformed_observation"
+    IN  IF ~WorldOK(w) \/ ~StepEnabled(w, a) THEN "malformed_observation"
         ELSE IF a.op = "stitch" THEN
              IF x.out.kind # "val" THEN "stitch_raised"
              ELSE IF x.out.rows # res.rows THEN "stitch_rows"
@@ -107,13 +110,4 @@ StepVerdict(w, a, x) ==
         ELSE IF a.op = "smudge" THEN (IF rest # "" THEN "result_shared" ELSE "")      \* scribbling on a result reached the world
         ELSE (IF rest # "" THEN "malformed_observation" ELSE "")                       \* the caller's own edit: the driver's business
 
-\* a session: the first step the specification does not explain
-RECURSIVE SessionFrom(_, _, _)
-SessionFrom(w, steps, k) ==
-    IF k > Len(steps) THEN ""
-    ELSE LET v == StepVerdict(w, steps[k].a, steps[k].x) IN
-         IF v # "" THEN v ELSE SessionFrom(Apply(w, steps[k].a), steps, k + 1)
-WorldOK(w) == /\ Len(w.ids) >= 1 /\ \A i \in 1..Len(w.ids) : w.ids[i] \in 1..Len(w.heap)
-              /\ \A h \in 1..Len(w.heap) : WellFormed(w.heap[h]) /\ NCols(w.heap[h]) = 1
-              /\ Len(w.bl) = Len(w.ids) /\ Monotone(w.bl)
 =============================================================================
